@@ -625,6 +625,141 @@ pub fn run(ctx: &Ctx) -> Result<Evidence, String> {
         acc.evaluations += j;
     }
 
+    // (b4) deep recursions on all threads at once: every thread evaluates descendant queries and
+    // deeply nested filters on a document of its own, several hundred levels deep (whatever the
+    // library counts or pools per process is then in use by all of them at the same moment);
+    // every result must equal the one computed before the threads started
+    {
+        let threads = ctx.threads.clamp(2, 16);
+        let rounds = ctx.tier.pick(40, 1200);
+        let depths = [300usize, 220, 150, 90];
+        let docs: Vec<Value> = (0..threads).map(|t| deep_doc(depths[t % depths.len()] + t).to_value()).collect();
+        let nested = format!("$..[?{}@.leaf{}]", "(".repeat(60), ")".repeat(60));
+        let queries: Vec<String> = vec!["$..*".into(), "$..tag".into(), "$..[0]".into(), "$..leaf".into(), nested, "$..[?@.leaf == 1]".into()];
+        let expected: Vec<Vec<Value>> = docs.iter().map(|d| queries.iter().map(|q| signature(q, d)).collect()).collect();
+        let barrier = Barrier::new(threads);
+        let done = AtomicU64::new(0);
+        std::thread::scope(|s| {
+            for t in 0..threads {
+                let (docs, queries, expected, barrier, done) = (&docs, &queries, &expected, &barrier, &done);
+                s.spawn(move || {
+                    barrier.wait();
+                    for round in 0..rounds {
+                        let qi = (round + t) % queries.len();
+                        let got = signature(&queries[qi], &docs[t]);
+                        if got != expected[t][qi] {
+                            let n = |v: &Value| v.get("ok").and_then(|o| o.as_array()).map(|a| a.len());
+                            ctx.violate(
+                                &format!("with {} threads each evaluating {:?}-like queries on deep documents of their own, thread {} got {:?} nodes for {:?} instead of {:?}", threads, "$..*", t, n(&got), queries[qi].chars().take(40).collect::<String>(), n(&expected[t][qi])),
+                                json!({"kind":"schedule","query": queries[qi], "threads": threads, "document_depth": depths[t % depths.len()] + t}),
+                            );
+                            return;
+                        }
+                        done.fetch_add(1, Ordering::Relaxed);
+                    }
+                });
+            }
+        });
+        acc.count("concurrent_deep_recursion_evaluations", done.load(Ordering::Relaxed));
+        acc.evaluations += done.load(Ordering::Relaxed);
+    }
+
+    // (b5) one parsed query shared by all threads, each thread on a document of its own in which
+    // the absolute sub-queries have other values; and every thread slicing a big array of its own
+    {
+        let threads = ctx.threads.clamp(2, 16);
+        let rounds = ctx.tier.pick(1500, 40_000);
+        let qtexts = ["$.items[?@ < length($.list)]", "$.items[?count($.list[*]) > @]", "$.items[?match(@.s, $.p) || @ == $.k]", "$.items[?@ == $.k || @ >= value($.list[-1])]", "$.big[0::2]", "$.big[::-3]", "$.big[100:-100:7]", "$.big[-5000::5]", "$..list[1:]"];
+        let parsed_q: Vec<JpQuery> = qtexts.iter().filter_map(|q| libapi::parse(q).ok().and_then(|r| r.ok())).collect();
+        if parsed_q.len() != qtexts.len() {
+            return Err("a C12 shared-query text does not parse".into());
+        }
+        let docs: Vec<Value> = (0..threads)
+            .map(|t| {
+                json!({
+                    "list": (0..(2 * t + 1)).collect::<Vec<usize>>(),
+                    "items": [0, 1, 2, 5, 9, 17, 33, {"s": format!("x{}", t)}, {"s": "x"}],
+                    "p": format!("x{}?", t % 3),
+                    "k": t,
+                    "big": (0..(4096 + 1500 * t)).collect::<Vec<usize>>(),
+                })
+            })
+            .collect();
+        let expected: Vec<Vec<Vec<String>>> = docs
+            .iter()
+            .map(|d| parsed_q.iter().map(|q| match libapi::process(q, d) { LibOutcome::Ok(ns) => ns.iter().map(|n| n.1.clone()).collect(), o => vec![o.brief()] }).collect())
+            .collect();
+        let barrier = Barrier::new(threads);
+        let done = AtomicU64::new(0);
+        std::thread::scope(|s| {
+            for t in 0..threads {
+                let (docs, parsed_q, expected, barrier, done, qtexts) = (&docs, &parsed_q, &expected, &barrier, &done, &qtexts);
+                s.spawn(move || {
+                    barrier.wait();
+                    for round in 0..rounds {
+                        let qi = (round * 5 + t) % parsed_q.len();
+                        // the big-array slices are expensive: one round in eight
+                        if qi >= 4 && qi <= 7 && round % 8 != 0 {
+                            continue;
+                        }
+                        let got: Vec<String> = match libapi::process(&parsed_q[qi], &docs[t]) { LibOutcome::Ok(ns) => ns.iter().map(|n| n.1.clone()).collect(), o => vec![o.brief()] };
+                        if got != expected[t][qi] {
+                            ctx.violate(
+                                &format!("one parsed query {:?} shared by {} threads, each on a document of its own: thread {} got {} nodes {:?}.. instead of {} {:?}..", qtexts[qi], threads, t, got.len(), got.iter().take(3).collect::<Vec<_>>(), expected[t][qi].len(), expected[t][qi].iter().take(3).collect::<Vec<_>>()),
+                                json!({"kind":"schedule","query": qtexts[qi], "threads": threads, "thread": t}),
+                            );
+                            return;
+                        }
+                        done.fetch_add(1, Ordering::Relaxed);
+                    }
+                });
+            }
+        });
+        acc.count("shared_parsed_query_own_documents_evaluations", done.load(Ordering::Relaxed));
+        acc.evaluations += done.load(Ordering::Relaxed);
+    }
+
+    // (b6) wrap-around distances: a query that might keep per-evaluation state is evaluated on one
+    // document, then exactly d-1 other evaluations follow on the same thread, then it is evaluated
+    // on another document - for d around 2^8 and 2^16 (counters and ids narrower than they look)
+    {
+        let qtexts = ["$.items[?count($.tags[*]) == 3]", "$.items[?length($.tags) == 3]", "$.items[?@ < count($..tags[*])]", "$.items[?match(@.s, $.p)]", "$.items[?@ == value($.tags[0])]"];
+        let d1: Value = json!({"tags": ["a", "b", "c"], "items": [10, 20, {"s": "a"}], "p": "a"});
+        let d2: Value = json!({"tags": ["a"], "items": [10, 20, {"s": "a"}], "p": "b"});
+        let filler: Value = json!({"tags": [0], "a": 1});
+        let dists: Vec<usize> = if ctx.tier == Tier::Quick { vec![255, 256, 257, 65535, 65536, 65537] } else { vec![127, 128, 255, 256, 257, 511, 512, 1023, 1024, 4095, 4096, 32767, 32768, 65535, 65536, 65537, 131071, 131072, 196608, 262144] };
+        let mut checks = 0u64;
+        for q in qtexts {
+            let jq = match libapi::parse(q) { Ok(Ok(j)) => j, _ => return Err(format!("C12 wrap-around query does not parse: {}", q)) };
+            let want2: Vec<String> = match libapi::process(&jq, &d2) { LibOutcome::Ok(ns) => ns.iter().map(|n| n.1.clone()).collect(), o => vec![o.brief()] };
+            for (k, d) in dists.iter().enumerate() {
+                // in a thread of its own: per-thread state starts from scratch for every distance
+                let bad = std::thread::scope(|s| {
+                    s.spawn(|| {
+                        let _ = libapi::process(&jq, &d1);
+                        for i in 0..d - 1 {
+                            // fillers alternate between a parsed-once query and a text entry point
+                            if (i + k) % 2 == 0 { let _ = libapi::query_with_path("$.a", &filler); } else { let _ = libapi::query_vals("$.tags[0]", &filler); }
+                        }
+                        let got: Vec<String> = match libapi::process(&jq, &d2) { LibOutcome::Ok(ns) => ns.iter().map(|n| n.1.clone()).collect(), o => vec![o.brief()] };
+                        if got != want2 { Some(got) } else { None }
+                    })
+                    .join()
+                    .unwrap_or(None)
+                });
+                checks += 1;
+                if let Some(got) = bad {
+                    ctx.violate(
+                        &format!("{:?} evaluated on one document, then {} other evaluations on the same thread, then on another document: it returns {:?} instead of {:?}", q, d - 1, got, want2),
+                        json!({"kind":"history","query": q, "evaluations_in_between": d - 1, "first_document": d1, "second_document": d2}),
+                    );
+                }
+            }
+        }
+        acc.count("wrap_around_distance_checks", checks);
+        acc.evaluations += checks;
+    }
+
     // (c) schedules: threads share one parsed query and one document (mode A) or the document
     // only (mode B); start on a barrier; seeded yields injected in the H1 hook
     let tick = AtomicU64::new(0);
